@@ -40,12 +40,18 @@ class Submodule(Module):
         return "SUBMODULE"
 
     def get_ancestors(self):
-        if self.ancestor_obj is not None:
-            great_ancestors = self.ancestor_obj.get_ancestors()
-            if great_ancestors is not None:
-                return [self.ancestor_obj] + great_ancestors
-            return [self.ancestor_obj]
-        return []
+        # Walk the ancestor chain iteratively; a submodule that names itself or one
+        # of its descendants as parent must not lead to unbounded recursion
+        ancestors = []
+        ancestor = self.ancestor_obj
+        while (
+            (ancestor is not None)
+            and (ancestor is not self)
+            and not any(ancestor is known for known in ancestors)
+        ):
+            ancestors.append(ancestor)
+            ancestor = getattr(ancestor, "ancestor_obj", None)
+        return ancestors
 
     def resolve_inherit(self, obj_tree, inherit_version):
         if not self.ancestor_name:
